@@ -576,6 +576,15 @@ def do_schema(args):
     """All rounds of one (schema, bump) in this process; returns events judged by TLC."""
     version, bump, dom, quick, seed, work, nshare, share = args
     _setup_cache(work)
+    # history: another bundled schema is checked in this process FIRST (the verdict on a schema must not depend on what the
+    # process checked before); rotating choice among the other schemas, preferring one with a different library
+    others = [v for v, _ in facts.bundled() if v not in EXCLUDED and v != version]
+    diff = [v for v in others if facts.load(v).library != facts.load(version).library] or others
+    diff = [v for v in diff if facts.load(v).is83 == facts.load(version).is83] or diff      # same generation of rules: shared code paths
+    prior = diff[(seed + sum(map(ord, version)) + (1 if bump else 0)) % len(diff)]
+    if ("prior", prior) not in _G:
+        from hed.schema import load_schema
+        _G[("prior", prior)] = len(load_schema(dict(facts.bundled())[prior]).check_compliance(check_for_warnings=True))
     f = facts.load(version)
     S = schema_consts(f, bump)
     pos, seeds, skipped = make_seeds(f, S, dom, bump)
@@ -646,9 +655,15 @@ def pick_quick(rounds, seed):
     for r in rounds:
         g = r[0]
         fam.setdefault("dep" if g.startswith("dep:") else ("dup" if g.startswith("dup") else g), []).append(r)
-    quota = {"mixed": 4, "dep": 2, "dup": 2, "inlib": 1, "changed": 1}
+    quota = {"mixed": 4, "dup": 2, "inlib": 1, "changed": 1}
     out = []
     for g, rs in fam.items():
+        if g == "dep":      # one round per variant of the version fault (unknown-old / unknown-new / current / newer / older control)
+            byvar = collections.OrderedDict()
+            for r in rs:
+                byvar.setdefault(r[0].split(":")[1], []).append(r)
+            out += [v[seed % len(v)] for v in byvar.values()]
+            continue
         n = min(len(rs), quota.get(g, 1))
         start = (seed * n) % len(rs)
         step = max(1, len(rs) // n)
